@@ -56,7 +56,8 @@ CLAIMS["C06"] = {
             "the current state while `in` agrees with access (histories "
             "include a setting changed by another thread while a recipe "
             "computes, and a plugin recipe removed and registered again "
-            "under the same name). Plus scenario "
+            "under the same name; caches of a dataset are per instance, no "
+            "class-level mutable object mutated through self). Plus scenario "
             "precedence, plugin/temporary features, write-once LUT "
             "registry, availability recomputed on every call.",
     "note": "The histories are decided on the model recipes, the read sets "
